@@ -66,8 +66,7 @@ def parsePayload (verb : Verb) (key : Key) (ws : List String) : Option Payload :
   | some kind =>
     match key with
     | .blk _ =>
-      if kind == "stale" then do some (.staleDel (← kvNat ws "h") (← kvNat ws "n"))
-      else if kind == "create" then do some (.blkCreate (← kvNat ws "a") (← kvNat ws "n"))
+      if kind == "create" then do some (.blkCreate (← kvNat ws "a") (← kvNat ws "n"))
       else do
         let g1 ← kvNats ws "g1"
         let g2 ← kvNats ws "g2"
